@@ -214,7 +214,12 @@ fn enumerate(ctx: &Ctx) -> Box<dyn Iterator<Item = Case>> {
     let mut v = Vec::new();
     let dmax = if ctx.tier == Tier::Thorough { 160 } else { 128 };
     for d in 0..=dmax {
-        for version in [0u32, 1, 2] {
+        // (versions that look like a stride belong to the same space: the two
+        // fields sit next to each other)
+        for version in [0u32, 1, 2, 40, 48, 64] {
+            if version >= 40 && !(d <= 2 || d == 40 || d == 48) {
+                continue;
+            }
             for count in 0..=4usize {
                 let du = d as usize;
                 let slacks = [0usize, 1, 7, 8, du.saturating_sub(8), du / 2, du.saturating_sub(4), du.saturating_sub(1), du.saturating_sub(7)];
@@ -228,13 +233,20 @@ fn enumerate(ctx: &Ctx) -> Box<dyn Iterator<Item = Case>> {
             }
         }
     }
+    // the two leading fields exchanged: a tiny descriptor size with a version that
+    // looks like a stride dividing the map length
+    for (d, version) in [(1u32, 40u32), (1, 48), (0, 40), (2, 64), (8, 40), (40, 40), (48, 40)] {
+        for map_len in [40usize, 48, 80, 96, 128, 192] {
+            v.push(Case { d, version, map_len, key: (d as u64) << 8 | version as u64, in_mbi: map_len % 16 == 0 });
+        }
+    }
     Box::new(v.into_iter())
 }
 
 fn strategy(_: &Ctx) -> BoxedStrategy<Case> {
     (
-        prop_oneof![4 => (5u32..=20).prop_map(|k| 8 * k), 2 => 0u32..200, 1 => any::<u32>()],
-        prop_oneof![6 => Just(1u32), 1 => 0u32..4, 1 => any::<u32>()],
+        prop_oneof![4 => (5u32..=20).prop_map(|k| 8 * k), 2 => 0u32..200, 1 => any::<u32>(), 1 => 0u32..3],
+        prop_oneof![6 => Just(1u32), 1 => 0u32..4, 1 => any::<u32>(), 1 => (5u32..=20).prop_map(|k| 8 * k)],
         0usize..12,
         prop_oneof![6 => Just(0usize), 1 => 0usize..64],
         any::<u64>(),
@@ -322,7 +334,7 @@ pub fn subs() -> Vec<Box<dyn Sub>> {
         replay: replay_large,
     }),Box::new(PropSub::<Case> {
         name: "efi-iter",
-        rule: "EFI memory-map tags with marker descriptor bytes (every second map: descriptors as firmware writes them - type numbers 0..=16, page counts incl. 0, conventional attributes), stand-alone at a PROT_NONE page or inside a boot information. Enumerated: descriptor size 0..=128 (thorough 160) x version {0,1,2} x count 0..=4 x length slack {0,1,7,8,d-8,d/2,d-4,d-1,d-7}; generated: strides up to 160 / random, up to 11 entries, random versions. Valid (version 1, d>=40, d%8==0, L%d==0): exactly L/d items, item i at map offset i*d with the five fields decoded by the model, len() == items still to come after every next(), clone mid-way yields the same rest. Otherwise: a controlled panic before the iteration completes and no descriptor that is misaligned or overlaps the tag end (L==0: panic or empty). Non-trivial = invalid combination or >=2 entries; distinct by (d, version, L, embedding)",
+        rule: "EFI memory-map tags with marker descriptor bytes (every second map: descriptors as firmware writes them - type numbers 0..=16, page counts incl. 0, conventional attributes), stand-alone at a PROT_NONE page or inside a boot information. Enumerated: descriptor size 0..=128 (thorough 160) x version {0,1,2} (and stride-like versions 40/48/64 with sizes 0..=2/40/48) x count 0..=4 x length slack {0,1,7,8,d-8,d/2,d-4,d-1,d-7}; generated: strides up to 160 / random, up to 11 entries, random versions. Valid (version 1, d>=40, d%8==0, L%d==0): exactly L/d items, item i at map offset i*d with the five fields decoded by the model, len() == items still to come after every next(), clone mid-way yields the same rest. Otherwise: a controlled panic before the iteration completes and no descriptor that is misaligned or overlaps the tag end (L==0: panic or empty). Non-trivial = invalid combination or >=2 entries; distinct by (d, version, L, embedding)",
         profiles: Profiles::Both,
         quick: 3000,
         thorough: 100000,
